@@ -4,9 +4,11 @@ Spec: spec/ErrProp.tla.  The states are expression trees over value+-error
 numbers (one action per operator of the NumberError API); TLC checks, in exact
 rational arithmetic, that the operator rules as implemented (Rule) reproduce
 first-order propagation (Ref, forward-mode differentiation of the whole tree)
-and characterises where a negative sigma / a wrong logarithm can come from;
-two probe invariants (NonNegative, TransLaw) are expected to fail on the rules
-as transcribed and give design-level counterexamples.
+and that sigma >= 0 (NonNegative) and the logarithmic terms of powers
+(TransLaw).  The spec transcribes err_num.py as repaired by ce344f3 / 0b78787
+(constants AbsFix = LogFix = TRUE); with the flags FALSE it transcribes the
+code as found, NonNegative / TransLaw then are probes that fail and whose TLC
+counterexamples are reproduced on the real class.
 
 Binding (B3): every tree TLC emits is evaluated with the real
 tf_pwa.err_num.NumberError / cal_err and compared with sqrt(Ref) from TLC;
@@ -46,8 +48,9 @@ ACTIONS = [
 # sigmas (AbsFix) and take the wrong logarithm (LogFix); the invariants NonNegative / TransLaw then are probes
 # that must fail.  After the corresponding repair of tf_pwa/err_num.py set the flag to True: the spec's Rule
 # follows the repaired code and the probe becomes an ordinary invariant of the main run.
-SPEC_ABS_FIX = False
-SPEC_LOG_FIX = False
+# True since /repo ce344f3 (np.abs in * and /) and 0b78787 (log(base), abs(log(other))).
+SPEC_ABS_FIX = True
+SPEC_LOG_FIX = True
 MAIN_INVARIANTS = ["Magnitude", "ValueAgrees", "NegCharacterised", "CalNonNeg", "TransCharacterised", "BoundCongruence"]
 
 # tolerances (measured margins on the unchanged tree are recorded in the evidence)
@@ -312,6 +315,9 @@ def _exact_part(ctx, out, NumberError, cal_err, mg):
                 continue
             ctx.count(1, distinct_key=(fam, json.dumps(t)), nontrivial=t[0] != "U")
             mg.add("exact_value" + vname, val, float(v), max(abs(float(v)), 1.0))
+            if not vname and E.depth(t) >= 2 and E.n_leaves(t) >= 3 and zlib.crc32(json.dumps(t).encode()) % 5000 == 0:
+                ctx.sample({"tree": E.py_expr(t), "tlc(value, Ref)": ["%d/%d" % tuple(rv), "%d/%d" % tuple(rref)],
+                            "NumberError(value, error)": [val, err], "sqrt(Ref)": rs}, limit=5)
             if math.isfinite(err):
                 mg.add("exact_sigma" + vname, abs(err), rs, max(rs, _scale(t) * max(1.0, abs(float(v)))))
             k = _judge(val, err, float(v), rs, tol, _scale(t))
